@@ -440,6 +440,114 @@ c14!(c14_sieve_3, Sieve::<u64, u64, EProps>::new(4, &SieveConfig {}), ref_sieve(
 c14!(c14_sieve_4, Sieve::<u64, u64, EProps>::new(4, &SieveConfig {}), ref_sieve(), 4);
 c14!(c14_sieve_5, Sieve::<u64, u64, EProps>::new(4, &SieveConfig {}), ref_sieve(), 5);
 
+/// Scripted differential: the operation SEQUENCE is literal (so it can be longer than the fully symbolic harnesses reach)
+/// and expanded by a macro (no harness loop: the global unwind bound stays at what the containers' own loops need);
+/// weights (1..=2) and hints of the three records are symbolic.  Same oracle: every victim and the final drain order
+/// equal the reference's.  op codes: 0 push, 1 pop, 2 remove, 3 acquire, 4 release.
+pub struct Script<E: Eviction, R> {
+    real: E,
+    reference: R,
+    recs: [Arc<Record<E>>; N],
+    w: [usize; N],
+    low: [bool; N],
+    pops: usize,
+}
+impl<E, R> Script<E, R>
+where
+    E: Eviction<Key = u64, Value = u64, Properties = EProps>,
+    R: Reference,
+{
+    fn new(real: E, reference: R) -> Self {
+        let mut w = [0usize; N];
+        let mut low = [false; N];
+        let recs: [Arc<Record<E>>; N] = std::array::from_fn(|i| {
+            let wi: usize = kani::any();
+            kani::assume(wi >= 1 && wi <= 2);
+            let l: bool = kani::any();
+            w[i] = wi;
+            low[i] = l;
+            Arc::new(Record::new(Data { key: i as u64, value: 0, properties: EProps { hint: if l { Hint::Low } else { Hint::Normal } }, hash: i as u64, weight: wi }))
+        });
+        Script { real, reference, recs, w, low, pops: 0 }
+    }
+    fn pop(&mut self, draining: bool) {
+        let a = self.real.pop();
+        let b = self.reference.pop();
+        match (&a, b) {
+            (Some(r), Some(x)) => {
+                assert!(idx_of(&self.recs, r) == x, "C14: victim differs from the documented algorithm");
+                self.pops += 1;
+            }
+            (None, None) => {}
+            _ => {
+                if draining {
+                    panic!("C14: container and rule disagree on the number of evictable entries")
+                } else {
+                    panic!("C14: container and rule disagree on whether there is a victim")
+                }
+            }
+        }
+        std::mem::forget(a);
+    }
+    fn op(&mut self, op: u8, i: usize) {
+        match op {
+            0 => {
+                self.real.push(self.recs[i].clone());
+                self.reference.push(i as u8, self.w[i], self.low[i]);
+            }
+            1 => self.pop(false),
+            2 => {
+                self.real.remove(&self.recs[i]);
+                self.reference.remove(i as u8);
+            }
+            3 => {
+                call_acquire(&mut self.real, &self.recs[i]);
+                self.reference.acquire(i as u8);
+            }
+            _ => {
+                call_release(&mut self.real, &self.recs[i]);
+                self.reference.release(i as u8);
+            }
+        }
+    }
+    fn finish(mut self) {
+        self.pop(true);
+        self.pop(true);
+        self.pop(true);
+        self.pop(true);
+        kani::cover!(self.pops >= 2, "at least two victims compared");
+        kani::cover!(true, "end reached");
+        std::mem::forget(self);
+    }
+}
+macro_rules! c14script {
+    ($name:ident, $real:expr, $reference:expr, [$(($op:expr, $i:expr)),* $(,)?]) => {
+        verif_harness! { $name, 6, {
+            let mut s = Script::new($real, $reference);
+            $( s.op($op, $i); )*
+            s.finish();
+        } }
+    };
+}
+const PUSH: u8 = 0;
+const POP: u8 = 1;
+const REMOVE: u8 = 2;
+const ACQ: u8 = 3;
+const REL: u8 = 4;
+// held entry released into a pool that filled up meanwhile; a later insert; then victims
+c14script!(c14_lru_script_release_full_pool, Lru::<u64, u64, EProps>::new(4, &LruConfig { high_priority_pool_ratio: 0.5 }), ref_lru(2),
+    [(PUSH, 0), (ACQ, 0), (PUSH, 1), (REL, 0), (PUSH, 2), (POP, 0)]);
+c14script!(c14_lru_script_hold_two, Lru::<u64, u64, EProps>::new(4, &LruConfig { high_priority_pool_ratio: 0.5 }), ref_lru(2),
+    [(PUSH, 0), (PUSH, 1), (ACQ, 1), (PUSH, 2), (ACQ, 0), (REL, 1), (POP, 0), (REL, 0)]);
+c14script!(c14_lru_script_remove_pinned, Lru::<u64, u64, EProps>::new(4, &LruConfig { high_priority_pool_ratio: 0.5 }), ref_lru(2),
+    [(PUSH, 0), (ACQ, 0), (ACQ, 0), (PUSH, 1), (REMOVE, 0), (PUSH, 2), (POP, 0)]);
+c14script!(c14_lru_script_pop_while_pinned, Lru::<u64, u64, EProps>::new(2, &LruConfig { high_priority_pool_ratio: 0.5 }), ref_lru(1),
+    [(PUSH, 0), (PUSH, 1), (PUSH, 2), (ACQ, 0), (POP, 0), (REL, 0), (POP, 0)]);
+c14script!(c14_sieve_script_hand_wraps, Sieve::<u64, u64, EProps>::new(4, &SieveConfig {}), ref_sieve(),
+    [(PUSH, 0), (PUSH, 1), (PUSH, 2), (ACQ, 0), (ACQ, 1), (POP, 0), (PUSH, 2), (ACQ, 2), (POP, 0)]);
+c14script!(c14_sieve_script_remove_hand, Sieve::<u64, u64, EProps>::new(4, &SieveConfig {}), ref_sieve(),
+    [(PUSH, 0), (PUSH, 1), (PUSH, 2), (ACQ, 0), (POP, 0), (REMOVE, 2), (POP, 0)]);
+
 // ---------------- S3-FIFO (SOSP'23) as documented in s3fifo.rs ----------------
 // Rule: new entries enter `small` unless their hash is remembered by the ghost queue, then `main`. A hit increments the
 // frequency (cap 3). Eviction: while `small` holds more than its share, pop its head: frequency >= threshold -> move to
